@@ -84,12 +84,14 @@ func init() {
 				add("rot/bytewise", 5)
 				add("wide/bytewise", 4)
 				add("tinycache/bytewise", 4)
+				add("snappy/bytewise", 4) // bloom filter per 16-byte block: versions of one key straddle filter ranges
 			} else {
 				add("flushy/bytewise", 7)
 				add("deep/bytewise", 7)
 				add("rot/bytewise", 6)
 				add("wide/bytewise", 6)
 				add("tinycache/bytewise", 6)
+				add("snappy/bytewise", 6)
 			}
 			runSpecs(c, "C03", specs,
 				"breadth-first search over sequences of writes, deletes, batch, CompactRange, Quiesce, Reopen, snapshot take/release (<=2 live), iterator create (on DB or on snapshot 0)/release (<=1 held); after every transition each live snapshot and the held iterator are read back completely and compared with the model copy taken when the view was created; the DB itself is compared with the current model",
